@@ -54,9 +54,8 @@ def allfit(bits, m, op, a, b=0):
         return fits(a * b, bits)
     if op == "div":
         return divfit(bits, m, a, b) is not None
-    if op == "mod":
-        q = divfit(bits, m, a, b)
-        return q is not None and fits(b * (tq(q, m) * m), bits)
+    if op == "mod":  # computed directly since the fix: only the zero divisor is outside the judged domain
+        return b != 0
     if op in ("neg", "abs"):
         return fits(-a, bits)
     if op == "ceil":
@@ -137,6 +136,34 @@ for k in (1, 2, 4, 9, 10, 16):
         for x in (mn, mn + 1):
             for op in ("trunc", "ceil", "round", "inc", "dec", "abs") + (("neg",) if bits == 128 else ()):
                 put(allfit(bits, m, op, x), "%s %d %s %d" % (ty, k, op, x))
+
+# ---- Mod over the whole range (since the fix "Mod computes the remainder directly" every non-zero divisor is judged):
+# the reviewer's inputs (a*10^D does not fit), operands at the limits, divisors +-1, Min % -1, |b| > |a|, b = +-a
+for k in (1, 2, 6, 10, 16):
+    m = 10 ** k
+    put(True, "f64 2 mod 1000000000000000000 300")          # From(10^16).Mod(From(3)) = 1
+    put(True, "f64 2 mod 100000000000000000 700")           # From(10^15).Mod(From(7)) = 6
+    put(True, "f128 2 mod 100000000000000000000000000000000000000 700")   # 10^36 mod 7 = 1
+    for bits, ty in ((64, "f64"), (128, "f128")):
+        mx, mn = (1 << (bits - 1)) - 1, -(1 << (bits - 1))
+        top = (mx // m) * m
+        avals = {mx, mx - 1, mn, mn + 1, top, -top, top + 1, mx // m, mx // m + 1, -(mx // m) - 1, (mx // m) * 3, mx // 2 + 1,
+                 10 ** (18 if bits == 64 else 38), -(10 ** (18 if bits == 64 else 38)), (1 << (bits - 2)) + 1, m, -m, 1, -1, 0,
+                 7 * m + 3, -(7 * m + 3)}
+        bvals = {1, -1, 2, -2, 3, -3, 7, m, -m, 3 * m, -3 * m, 7 * m, m // 2, m + 1, mx, mn, mn + 1, mx - 1, mx // 2,
+                 -(mx // 2) - 1, (1 << (bits - 2)), -(1 << (bits - 2)), (1 << 62) + 1, 10 ** 9 + 7, -(10 ** 9 + 7)}
+        if bits == 128:
+            avals |= {(1 << 63), (1 << 64), (1 << 64) - 1, -(1 << 64), (1 << 126) + 12345}
+            bvals |= {(1 << 63), (1 << 64), (1 << 64) + 1, -(1 << 63) - 1, (1 << 100) + 3, 10 ** 20 + 1}
+        for a in sorted(avals):
+            for b in sorted(bvals):
+                if fits(a, bits) and fits(b, bits):
+                    put(True, "%s %d mod %d %d" % (ty, k, a, b))
+            if fits(a, bits):
+                put(True, "%s %d mod %d %d" % (ty, k, a, a if a != 0 else 1))
+                if fits(-a, bits) and a != 0:
+                    put(True, "%s %d mod %d %d" % (ty, k, a, -a))
+                wrap.append("%s %d mod %d 0" % (ty, k, a))
 
 # ---- Round / Ceil / Trunc strictly inside (-1, 1), every configuration
 for k in range(1, 17):
